@@ -459,7 +459,7 @@ func (eng *Engine) buildVCq(fn *ssa.Function, ct *Contract, qf int) (vc *VC, err
 						for h := range vc.heapSort {
 							known[h] = true
 						}
-						for _, fm := range f.frameConds(ict, f.specEnv(f.entry), f.entry, r.st, union(union(eff, actual), known)) {
+						for _, fm := range f.frameConds(ict, f.specEnv(f.entry), f.entry, r.st, union(eff, known)) {
 							o := f.obligeAt(r.R, "frame", "iface."+fm.heap+tag, nil, fm.formula, r.pos)
 							o.Src = "only the objects listed in the modifies clause of " + ct.Implements + " (or allocated during the call) change in heap " + fm.heap
 						}
@@ -479,7 +479,7 @@ func (eng *Engine) buildVCq(fn *ssa.Function, ct *Contract, qf int) (vc *VC, err
 					for h := range vc.heapSort {
 						known[h] = true
 					}
-					for _, fm := range f.frameConds(ct, f.specEnv(f.entry), f.entry, r.st, union(union(eff, actual), known)) {
+					for _, fm := range f.frameConds(ct, f.specEnv(f.entry), f.entry, r.st, union(eff, known)) {
 						o := f.obligeAt(r.R, "frame", fm.heap+tag, nil, fm.formula, r.pos)
 						o.Src = "only the objects listed in the modifies clause (or allocated during the call) change in heap " + fm.heap
 					}
@@ -488,7 +488,11 @@ func (eng *Engine) buildVCq(fn *ssa.Function, ct *Contract, qf int) (vc *VC, err
 		}
 		if ct != nil {
 			ap := vc.lookup(f.entry, "alloc", allocSort)
-			for _, h := range vc.freshOnlyHeaps(ct) {
+			fo := vc.freshOnlyHeaps(ct)
+			if ict != nil {
+				fo = append(fo, vc.freshOnlyHeaps(ict)...)
+			}
+			for _, h := range fo {
 				srt, _ := vc.sortForHeap(h)
 				hp := vc.lookup(f.entry, h, srt)
 				hq := vc.lookup(r.st, h, srt)
